@@ -215,6 +215,25 @@ func textAttacks(orig []byte, rng *rand.Rand, lv textLevel, exp string, emit fun
 			emit(tatk{"nest", fmt.Sprintf("%q/%d+orig", pat, d), append([]byte(s), orig...)})
 		}
 	}
+	// deep nests that are well-formed all the way down (an open-only nest is refused by a JSON syntax check before any
+	// type-specific decoder runs)
+	for _, pat := range [][3]string{
+		{`{"type":"thresh","policy":{"n":1,"of":[`, `{"type":"above","policy":1}`, `]}}`},
+		{`[`, `1`, `]`}, {`{"a":`, `1`, `}`}, {`thresh(1,[`, `above(1)`, `])`},
+	} {
+		seen := map[int]bool{}
+		for _, d := range append([]int{1500}, lv.nests...) {
+			if d > 3000 {
+				d = 3000 // encoding/json itself stops at 10000 levels
+			}
+			if seen[d] {
+				continue
+			}
+			seen[d] = true
+			s := strings.Repeat(pat[0], d) + pat[1] + strings.Repeat(pat[2], d)
+			emit(tatk{"closed-nest", fmt.Sprintf("%q/%d", pat[0], d), []byte(s)})
+		}
+	}
 	// bulk
 	for _, c := range []byte{'a', '0', ' ', ',', 0} {
 		if lv.light {
